@@ -36,7 +36,7 @@ run_lane() {
     caught=""
     for c in $checks; do
       GSEMC_VERIF_DIR=$L/verif timeout 600 $L/target/mc/gsemc check $c --tier $TIER > $L/last_$c.log 2>&1; rc=$?
-      if [ $rc -eq 1 ]; then caught="$caught $c"; elif [ $rc -ne 0 ]; then caught="$caught $c!machinery($rc)"; fi
+      if [ $rc -eq 1 ]; then caught="$caught $c"; elif [ $rc -ne 0 ]; then caught="$caught $c!machinery($rc)"; cp $L/last_$c.log "$OUT/${name}_$c.log"; fi
     done
     echo "$name ->$caught" >> "$OUT/result.txt"
     git -C $L/repo checkout -q -- .
